@@ -312,6 +312,44 @@ func (bc *boundsChecker) checkSlice(rule string, fn *ssa.Function, a *Arith, x *
 			return
 		}
 	}
+	// ... and l.input[snapshot of l.pos : l.pos+1] (the text up to and including the current character) taken directly
+	// under a test of the current character that fails for the zero byte: char != 0 means pos < len(input)
+	if shortPkg(fnPkgPath(fn)) == "lexer" && x.Low != nil && x.High != nil &&
+		strings.HasSuffix(fieldPathOf(x.X), ".input") && fieldPathOf(x.Low) == ".pos" {
+		if add, isAdd := x.High.(*ssa.BinOp); isAdd && add.Op == token.ADD && fieldPathOf(add.X) == ".pos" {
+			if k, isK := add.Y.(*ssa.Const); isK && k.Value != nil && k.Int64() == 1 {
+				b := x.Block()
+				guarded := false
+				if len(b.Preds) == 1 {
+					p := b.Preds[0]
+					pc := &progressCtx{m: m}
+					for _, f := range edgeFact(p, b) {
+						if kn, val := evalCond(f.Cond, pc.lexEval(0), b); kn && val != f.Holds {
+							guarded = true // with char == 0 this edge is not taken
+						}
+					}
+					// nothing is read between the test and the slice
+					for _, in := range b.Instrs {
+						if in == ssa.Instruction(x) {
+							break
+						}
+						if c, isC := in.(ssa.CallInstruction); isC {
+							if sc := c.Common().StaticCallee(); sc != nil && m.InModule(sc) && shortPkg(fnPkgPath(sc)) == "lexer" {
+								if sum := m.Effects().sums[sc]; sum == nil || len(sum.writes) > 0 {
+									guarded = false
+								}
+							}
+						}
+					}
+				}
+				t := trustedPart{[]string{"high <= len", "low <= high"}, lexerPosInvariant + "; the slice is taken directly under a test of l.char that fails for 0, where pos < len(input)"}
+				if guarded && t.covers(need) {
+					bc.s.OKTrivial(rule, key, m.InstrPos(x), "TRUSTED for %v (other parts proven): %s", need, t.reason)
+					return
+				}
+			}
+		}
+	}
 	bc.s.Violation(rule, key, m.InstrPos(x), "slice expression %s[%s:%s] in %s: not proven on every path: %s; out-of-range bounds panic",
 		valueDesc(x.X), optDesc(x.Low), optDesc(x.High), fnKey(fn), strings.Join(need, ", "))
 }
